@@ -245,6 +245,9 @@ func (g *xmlGen) element(depth int, parentScope map[string]string) *Node {
 	// children
 	if depth < g.cfg.MaxDepth {
 		nc := g.t.Geo(5)
+		if g.t.Bool(1, 3) {
+			nc += g.t.Draw(5)
+		}
 		lastText := false
 		for i := 0; i < nc && g.nodes < g.cfg.MaxNodes; i++ {
 			switch g.t.Pick(4, 3, 1, 1) {
